@@ -295,28 +295,39 @@ func r053(c *Ctx, r *R) {
 		return
 	}
 	if helper {
-		// the helper answers "keep" (true) or "clean" (false): false only
-		// after PhaseDone, and the worker cleans exactly on false
+		// the helper's answer tells the worker whether to clean: one of the
+		// two values is returned only after PhaseDone (whichever the helper
+		// uses for "completed"), and the worker cleans exactly on it
 		okRet := true
-		nFalse := 0
+		var cleanAns *bool
 		for _, lf := range returnLeaves(f, 0) {
 			k, isK := constOf(lf.Val)
-			if !isK {
+			if !isK || k == nil {
 				okRet = false
 				continue
 			}
-			if k == nil || !constant.BoolVal(k) {
-				nFalse++
-				if done == nil || !done.Block().Dominates(lf.Block) {
+			if done != nil && done.Block().Dominates(lf.Block) {
+				v := constant.BoolVal(k)
+				if cleanAns != nil && *cleanAns != v {
+					okRet = false
+				}
+				cleanAns = &v
+			}
+		}
+		nClean := 0
+		for _, lf := range returnLeaves(f, 0) {
+			if k, isK := constOf(lf.Val); isK && k != nil && cleanAns != nil && constant.BoolVal(k) == *cleanAns {
+				nClean++
+				if !done.Block().Dominates(lf.Block) {
 					okRet = false
 				}
 			}
 		}
-		r.Check(okRet && nFalse == 1, "clean-only-when-done", f.Pos(), "the helper tells the worker to clean the operation only after PhaseDone", "the helper can tell the worker to clean an operation that did not complete (its error status would vanish)")
+		r.Check(okRet && cleanAns != nil && nClean == 1, "clean-only-when-done", f.Pos(), "the helper tells the worker to clean the operation only after PhaseDone", "the helper can tell the worker to clean an operation that did not complete (its error status would vanish)")
 		hname := f.Name()
-		ok := guardedBy(cl[0].Block(), func(g Guard) bool {
+		ok := cleanAns != nil && guardedBy(cl[0].Block(), func(g Guard) bool {
 			call, _ := originCallLocal(g.Cond)
-			return call != nil && !g.Branch && call.Common().StaticCallee() == f
+			return call != nil && g.Branch == *cleanAns && call.Common().StaticCallee() == f
 		})
 		r.Check(ok, "worker-clean", cl[0].Pos(), "the worker cleans an operation exactly when "+hname+" reports completion", "opWorker cleans operations that "+hname+" asked to keep (failed/cancelled): error statuses are lost")
 	} else {
